@@ -121,6 +121,8 @@ EXTERNAL = [
     (r'importlib\.import_module$', 'fresh'),
     (r'functools\.wraps$', 'fresh'),
     (r'(pickle|json)\.(load|loads|dumps)$', 'fresh'),
+    (r'dict\.fromkeys$', 'alias'),
+    (r'str\.(join|format|maketrans)$', 'fresh'),
 ]
 EXTERNAL = [(re.compile(p), k) for p, k in EXTERNAL]
 
@@ -154,7 +156,10 @@ PURE_METHODS = {'copy', 'astype', 'sum', 'mean', 'std', 'var', 'min', 'max', 'an
                 'reset_index', 'drop', 'rename', 'assign', 'apply', 'sample', 'quantile', 'median', 'describe',
                 'nonzero', 'cumulative_distribution', 'probability_density', 'percent_point', 'load', 'dump',
                 'encode', 'decode', 'title', 'isdigit', 'searchsorted', 'repeat', 'conj', 'trace', 'total_seconds',
-                'random', 'uniform', 'normal', 'randint', 'choice', '__subclasses__', 'mro', 'is_integer'}
+                'random', 'uniform', 'normal', 'randint', 'choice', '__subclasses__', 'mro', 'is_integer',
+                'select_dtypes', 'reindex', 'where', 'mask', 'nlargest', 'nsmallest', 'melt', 'merge', 'to_records',
+                'to_frame_copy', 'convert_dtypes', 'duplicated', 'drop_duplicates', 'equals', 'between', 'agg',
+                'kurt', 'skew', 'idxmax', 'idxmin', 'pct_change', 'shift', 'rolling_mean', 'to_json', 'to_string'}
 ALIAS_METHODS = {'to_numpy', 'reshape', 'ravel', 'squeeze', 'transpose', 'view', 'to_frame', 'items', 'values',
                  'keys', 'get', 'iterrows', 'itertuples', 'head', 'tail', 'swapaxes', '__getitem__', 'iteritems',
                  'groupby', 'first', 'last', 'take_view', 'infer_objects', 'set_axis_view'}
